@@ -549,3 +549,153 @@ func TestIterRejected(t *testing.T) {
 		})
 	}
 }
+
+func zwTestSpecs(name string) []fnSpec {
+	wl := []fnSpec{
+		{dir: "pos7", file: "pos7.go", recv: "Eng", name: "Get", lean: "get", slot: "tab", views: map[string]string{"e": "tab tab.isNil"}},
+		{dir: "pos7", file: "pos7.go", recv: "Eng", name: "Put", lean: "put", slot: "tab", views: map[string]string{"e": "flag.load tab"}, mut: map[string]string{"e": "tab"}},
+		{dir: "pos7", file: "pos7.go", recv: "Eng", name: name, lean: "walk", reuse: true, round6: true, round7: true, fuel: []string{"4"},
+			views:       map[string]string{"e": "flag.load st stack[].e stack[].k stack[].line tab tab.isNil", "b": ""},
+			mut:         map[string]string{"e": "st stack[].e stack[].k stack[].line tab"},
+			oracles:     map[string]string{"b": "Done() Sum() Try(v,s)"},
+			storage:     map[string]string{"e": "stack[].buf"},
+			funcFields:  map[string]string{"e": "score"},
+			assumeFalse: "e.cfg.Debug > ply"},
+	}
+	for i := range wl {
+		wl[i].round2, wl[i].round3, wl[i].round5 = true, true, true
+	}
+	return wl
+}
+
+// TestZw: the constructs of the seventh round (zw.go): an executed-only translation in `do` notation.
+func TestZw(t *testing.T) {
+	withWhitelist(t, []string{""}, zwTestSpecs("Walk"), func(out map[string]string, errs []error) {
+		for _, e := range errs {
+			t.Errorf("unexpected failure: %v", e)
+		}
+		src := out["Funcs.lean"]
+		if p := os.Getenv("GEN_DUMP"); p != "" {
+			os.WriteFile(p, []byte(prelude7+src), 0o644)
+		}
+		for _, want := range []string{
+			// fixed parameters: read-only views, the function field, the position's oracles as functions of the type parameter; then fuel, arguments, state
+			"def walk {C_Box : Type} (e_flag_load : Int) (e_tab_isNil : Bool) (e_score : C_Box → Int) (Position_Done : C_Box → Bool × Int) (Position_Sum : C_Box → BitVec 64) (Position_Try : C_Box → Key → (Option C_Box × Bool)) : Nat → C_Box → Int → Int → Array (Key) → Int → (Cnt × Array (Entry) × Array (Key) × Array (Array (Key)) × Array (Entry)) → Option ((Array (Key) × Int) × (Cnt × Array (Entry) × Array (Key) × Array (Array (Key)) × Array (Entry)))",
+			"  | 0, _, _, _, _, _, _ => none\n  | fuel+1, b, ply, depth, hint, lo, (e_st, e_stack_e, e_stack_k, e_stack_line, e_tab) => do",
+			"    let b_Done := Position_Done b",
+			"    let mut e_tab := e_tab",
+			// a field of a struct-typed assignable view; the function field; `return` carries the state
+			"      e_st := { e_st with Seen := (e_st.Seen + 1#64) }\n      return ((#[], (e_score b)), (e_st, e_stack_e, e_stack_k, e_stack_line, e_tab))",
+			// a regenerated function returning a pointer into a view: Option-valued call bound in the monad, the pointer is the index
+			"    let tmp0 ← (get e_tab e_tab_isNil b_Sum)\n    let mut te := tmp0\n    if te.isSome then",
+			// a read through the pointer: nil dereference guard, the current value of the view
+			"      if te.isNone then none\n      if (decide ((e_tab.getD (te.getD 0) (default : Entry)).val > lo)) then",
+			// an element of a frame array; a slice of it
+			"        e_stack_line := e_stack_line.setIfInBounds ply.toNat ((e_stack_line.getD ply.toNat (Array.replicate 4 (default : Key))).setIfInBounds 0 (e_tab.getD (te.getD 0) (default : Entry)).k)",
+			"        return ((((e_stack_line.getD ply.toNat (Array.replicate 4 (default : Key))).extract 0 1), (e_tab.getD (te.getD 0) (default : Entry)).val), (e_st,",
+			// `*te` copied into the frame, the pointer retargeted (from here on it indexes e_stack_e)
+			"      e_stack_e := e_stack_e.setIfInBounds ply.toNat (e_tab.getD (te.getD 0) (default : Entry))",
+			"      te := some ply.toNat",
+			"        k := (e_stack_e.getD (te.getD 0) (default : Entry)).k",
+			// the window: its length; `w = w[:1]`
+			"    let mut best_len : Nat := 0",
+			"      if !(decide (1 ≤ 4)) then none\n      best_len := 1",
+			// the general loop: whitelist fuel, the flag
+			"    let mut i : Int := (0 : Int)\n    let mut more0 : Bool := true\n    for _ in [0:4] do\n      if !(((decide (i < (3 : Int))) && (!hit))) then\n        more0 := false\n        break",
+			// the oracle with a buffer; the recursive call: a nil child is the callee's panic, the state goes in and comes back
+			"      let (child, err) := (b_Try k)\n      if err then\n        let c1 ← child",
+			"        let ((r2_0, r2_1), (s2_0, s2_1, s2_2, s2_3, s2_4)) ← walk e_flag_load e_tab_isNil e_score Position_Done Position_Sum Position_Try fuel c1 (ply + (1 : Int)) (depth - (1 : Int))",
+			"(-lo) (e_st, e_stack_e, e_stack_k, e_stack_line, e_tab)\n        e_st := s2_0",
+			// writes through the window; `break` clears the flag
+			"          e_stack_line := e_stack_line.setIfInBounds ply.toNat ((e_stack_line.getD ply.toNat (Array.replicate 4 (default : Key))).setIfInBounds 0 k)\n          best_len := 1\n          if decide (best_len + ks.size > 4) then none\n          e_stack_line := e_stack_line.setIfInBounds ply.toNat (zwWrite (e_stack_line.getD ply.toNat (Array.replicate 4 (default : Key))) best_len ks)\n          best_len := best_len + ks.size\n          hit := true\n          more0 := false\n          break",
+			// the atomic load in the loop is the one input view; post statement; fuel exhausted
+			"        if (e_flag_load != (0 : Int)) then",
+			"      i := (i + 1)\n    if more0 then none",
+			// a regenerated function that assigns through the receiver and returns a pointer; a write through the pointer
+			"    let (r3_0, f3_0) ← put e_flag_load e_tab b_Sum\n    e_tab := f3_0\n    te := r3_0",
+			"      e_tab := e_tab.setIfInBounds (te.getD 0) { (e_tab.getD (te.getD 0) (default : Entry)) with val := lo }",
+		} {
+			if !strings.Contains(src, want) {
+				t.Errorf("generated source lacks:\n%s", want)
+			}
+		}
+		if strings.Contains(src, "println") || strings.Contains(src, "Debug") {
+			t.Errorf("the statement under the assumed-false condition was translated")
+		}
+		if t.Failed() {
+			t.Logf("generated:\n%s", src)
+		}
+	})
+}
+
+// TestZwRejected: the unsound neighbours of the seventh-round constructs are refused loudly.
+func TestZwRejected(t *testing.T) {
+	for _, c := range []struct{ name, msg string }{
+		{"BadRetarget", "a pointer is retargeted outside `if te != nil {..}` or inside a loop"},
+		{"BadContinue", "continue (round 7)"},
+		{"BadWindow", "assignment to a window onto a frame array"},
+	} {
+		withWhitelist(t, []string{""}, zwTestSpecs(c.name), func(out map[string]string, errs []error) {
+			if len(errs) != 1 || !strings.Contains(errs[0].Error(), c.msg) {
+				t.Errorf("%s: expected one failure mentioning %q, got %v", c.name, c.msg, errs)
+			}
+			if _, written := out["Funcs.lean"]; written {
+				t.Errorf("%s: a group with a failed function must not be written", c.name)
+			}
+		})
+	}
+}
+
+func sortTestSpecs(name string) []fnSpec {
+	return []fnSpec{{dir: "pos7", file: "pos7.go", recv: "Sorter", name: name, lean: "rank", plainDo: true,
+		round2: true, round3: true, round5: true, round6: true, round7: true,
+		views:       map[string]string{"x": "e.seen f.vals.alloc f.vals.slice f.vals.slice.isNil ks"},
+		mut:         map[string]string{"x": "ks"},
+		callOracles: map[string]string{"sort.Sort": "ks vs[:len(ks)] =ks"}}}
+}
+
+// TestSortOracle: the constructs of zwsort.go (task 3 of work package gen7).
+func TestSortOracle(t *testing.T) {
+	withWhitelist(t, []string{""}, sortTestSpecs("Rank"), func(out map[string]string, errs []error) {
+		for _, e := range errs {
+			t.Errorf("unexpected failure: %v", e)
+		}
+		src := out["Funcs.lean"]
+		for _, want := range []string{
+			// the views (unexported fields of an anonymous struct included), then the call oracle
+			"def rank (x_e_seen : List (Key × Int)) (x_f_vals_alloc : Array (Int)) (x_f_vals_slice : Array (Int)) (x_f_vals_slice_isNil : Bool) (x_ks : Array (Key)) (sort_Sort : Array (Key) → Array (Int) → Array (Key)) : Option (Array (Key)) := do",
+			// the nil-ness travels with the local
+			"  let mut vs : Array (Int) := x_f_vals_slice\n  let mut vs_isNil : Bool := x_f_vals_slice_isNil\n  if vs_isNil then\n    vs := x_f_vals_alloc\n    vs_isNil := false",
+			"    vs := (Array.replicate (Int.ofNat x_ks.size).toNat (0 : Int))\n    vs_isNil := false",
+			// the range loop over the aliased field, the element write into the aliased local (index guard), the map read
+			"  let mut i : Int := 0\n  for k in x_ks do\n    if !(decide ((0 : Int) ≤ i) && decide (i < Int.ofNat vs.size)) then none\n    vs := vs.setIfInBounds i.toNat ((mapGet x_e_seen k).getD (0 : Int))\n    i := i + 1",
+			// the oracle: values in, the new value of the aliased field out
+			"  x_ks := (sort_Sort x_ks (vs.extract 0 x_ks.size))\n  return x_ks",
+		} {
+			if !strings.Contains(src, want) {
+				t.Errorf("generated source lacks:\n%s", want)
+			}
+		}
+		if t.Failed() {
+			t.Logf("generated:\n%s", src)
+		}
+	})
+}
+
+// TestSortOracleRejected: the unsound neighbours are refused loudly.
+func TestSortOracleRejected(t *testing.T) {
+	for _, c := range []struct{ name, msg string }{
+		{"BadAlias", "assignment to a slice that a struct of slices aliases"},
+		{"BadRange", "the body of a range loop assigns the slice ranged over"},
+		{"BadNil", "the nil-ness of the value assigned to vs is not known"},
+	} {
+		withWhitelist(t, []string{""}, sortTestSpecs(c.name), func(out map[string]string, errs []error) {
+			if len(errs) != 1 || !strings.Contains(errs[0].Error(), c.msg) {
+				t.Errorf("%s: expected one failure mentioning %q, got %v", c.name, c.msg, errs)
+			}
+			if _, written := out["Funcs.lean"]; written {
+				t.Errorf("%s: a group with a failed function must not be written", c.name)
+			}
+		})
+	}
+}
